@@ -1206,7 +1206,7 @@ pub fn harnesses() -> Vec<H> {
             bound: "TupleABRegion<HuffmanContainer<u8>, CodecRegion<DictionaryCodec>> and ResultRegion<..>: merge_regions over 1 or 2 source regions, then rows covered by the passed sources' statistics must be accepted and read back; clear of a populated / merged composite, then rows with unseen symbols and tag-like literals compared with a default twin", kani: false },
         H { name: "huffman_wrapped", props: &["C14", "C15"], nargs: 4, pre: pre_wrapped, doms: doms_wrapped, run: run_wrapped, panic_ok: false,
             bound: "Wrapped items, raw versus Huffman-encoded under two different code books, 9 profiles (incl. Fibonacci-skewed ones with 10 and 16 symbols: codes longer than a byte) x all pairs of 12 item shapes x 4 clone_onto targets: ==, partial_cmp, cmp against the owned vectors; into_owned / clone_onto / borrow_as; region-to-region push", kani: false },
-        H { name: "huffman_forms", props: &["C20"], nargs: 2, pre: pre_hforms, doms: doms_hforms, run: run_hforms, panic_ok: false,
+        H { name: "huffman_forms", props: &["C20", "C10"], nargs: 2, pre: pre_hforms, doms: doms_hforms, run: run_hforms, panic_ok: false,
             bound: "HuffmanContainer<u16> raw and coded, 4 profiles: [B;N], &[B;N], Vec<B>, &Vec<B>, raw and encoded read items of another container versus &[B] on twins in the same state (indices, reads), and the next generation merged from each twin (index and read of a probe)", kani: false },
         H { name: "dictionary_quick", props: &["C07", "C01", "C02", "C04", "C08", "C10"], nargs: 7, pre: pre_dict, doms: doms_dict_quick, run: run_dict, panic_ok: false,
             bound: "CodecRegion<DictionaryCodec>: 8 x 2 training sets over 1..2 source regions; 20 probes (empty, dictionary entries, prefixes/extensions, first byte an assigned tag, eight one-byte strings) x 3; second merge generation; reserve_regions on the merged region and on a source (twice), earlier reads unchanged and a further push like on a twin; clear; every push refused or read back exactly, heavy hitters cost 1 byte", kani: false },
